@@ -1272,3 +1272,770 @@ Proof.
   - cbn [andb app]. apply covers_nil.
 Qed.
 End Position.
+
+
+(* ================================================================== the repaired scan returns the arg-max *)
+(* ------------------------------------------------------------------ the repaired scan returns the arg-max *)
+(* --- sortedness of the argsort model --- *)
+Fixpoint srt (key : nat -> R) (l : list nat) : Prop :=
+  match l with [] => True | x :: r => (forall y, In y r -> key x <= key y) /\ srt key r end.
+
+Lemma insert_by_in key x l y : In y (insert_by Rops key x l) <-> y = x \/ In y l.
+Proof.
+  split; intros H.
+  - apply (Permutation_in _ (insert_by_perm key x l)) in H. destruct H; auto.
+  - apply (Permutation_in _ (Permutation_sym (insert_by_perm key x l))). destruct H; [left; auto | now right].
+Qed.
+
+Lemma insert_by_srt key x l : srt key l -> srt key (insert_by Rops key x l).
+Proof.
+  induction l as [|y l IH]; intros Hs; simpl.
+  - split; [intros ? [] | exact I].
+  - rops. unfold Rleb. destruct Hs as [Hy Hl]. destruct (Rle_dec (key x) (key y)) as [Hle|Hgt].
+    + split; [|split; assumption]. intros z [<-|Hz]; [exact Hle | specialize (Hy z Hz); lra].
+    + split; [|now apply IH]. intros z Hz. apply insert_by_in in Hz. destruct Hz as [->|Hz]; [lra | now apply Hy].
+Qed.
+
+Lemma sort_by_srt key l : srt key (sort_by Rops key l).
+Proof. unfold sort_by. induction l as [|x l IH]; simpl; [exact I | now apply insert_by_srt]. Qed.
+
+Lemma srt_app key l1 l2 : srt key (l1 ++ l2) ->
+  srt key l2 /\ forall a b, In a l1 -> In b l2 -> key a <= key b.
+Proof.
+  induction l1 as [|x l1 IH]; simpl; intros H.
+  - split; [exact H | intros ? ? []].
+  - destruct H as [Hx Hs]. destruct (IH Hs) as [H2 H12]. split; [exact H2|].
+    intros a b [<-|Ha] Hb; [apply Hx, in_or_app; now right | now apply H12].
+Qed.
+
+Lemma filter_all {A} (p : A -> bool) l : (forall a, In a l -> p a = true) -> filter p l = l.
+Proof. induction l as [|x l IH]; intros H; simpl; [reflexivity|]. rewrite (H x) by now left. f_equal. apply IH. intros; apply H; now right. Qed.
+Lemma filter_none {A} (p : A -> bool) l : (forall a, In a l -> p a = false) -> filter p l = [].
+Proof. induction l as [|x l IH]; intros H; simpl; [reflexivity|]. rewrite (H x) by now left. apply IH. intros; apply H; now right. Qed.
+Lemma filter_perm {A} (p : A -> bool) l l' : Permutation l l' -> Permutation (filter p l) (filter p l').
+Proof.
+  induction 1; simpl.
+  - constructor.
+  - destruct (p x); [now constructor | assumption].
+  - destruct (p x), (p y); try apply Permutation_refl. apply perm_swap.
+  - eapply Permutation_trans; eassumption.
+Qed.
+
+(* at a boundary x | y of the sorted leaf with key x < key y, "key <= key x" cuts exactly there *)
+Lemma boundary_filters key pre x rest :
+  srt key (pre ++ x :: rest) -> (forall z, In z rest -> key x < key z) ->
+  filter (fun i => Rleb (key i) (key x)) (pre ++ x :: rest) = pre ++ [x] /\
+  filter (fun i => negb (Rleb (key i) (key x))) (pre ++ x :: rest) = rest.
+Proof.
+  intros Hs Hlt. destruct (srt_app key pre (x :: rest) Hs) as [_ Hpre].
+  assert (Hle : forall a, In a (pre ++ [x]) -> Rleb (key a) (key x) = true).
+  { intros a Ha. unfold Rleb. destruct (Rle_dec (key a) (key x)) as [|n]; [reflexivity|]. exfalso. apply n.
+    apply in_app_or in Ha. destruct Ha as [Ha|[<-|[]]]; [apply Hpre; [exact Ha | now left] | lra]. }
+  assert (Hgt : forall a, In a rest -> Rleb (key a) (key x) = false).
+  { intros a Ha. unfold Rleb. destruct (Rle_dec (key a) (key x)) as [l|]; [|reflexivity]. specialize (Hlt a Ha). lra. }
+  replace (pre ++ x :: rest) with ((pre ++ [x]) ++ rest) by (rewrite <- app_assoc; reflexivity).
+  rewrite (filter_app (fun i => Rleb (key i) (key x)) (pre ++ [x]) rest), (filter_app (fun i => negb (Rleb (key i) (key x))) (pre ++ [x]) rest). split.
+  - rewrite (filter_all _ _ Hle), (filter_none _ _ Hgt). now rewrite app_nil_r.
+  - rewrite filter_none, filter_all; [reflexivity | |].
+    + intros a Ha. now rewrite (Hgt a Ha).
+    + intros a Ha. now rewrite (Hle a Ha).
+Qed.
+
+(* --- what membership in [candidates] means --- *)
+Definition mkc (j f : nat) (t : R) (a b : nat) : @cand R :=
+  {| c_leaf := j; c_feat := f; c_thr := t; c_left := a; c_right := b |}.
+
+Lemma cand_elim (st : @kstate R) c : In c (candidates Rops st) ->
+  In (c_leaf c) (ks_explore st) /\ In (c_feat c) (ks_feats st) /\
+  (exists i, In i (nth (c_leaf c) (ks_leaves st) []) /\ c_thr c = ks_X st i (c_feat c)) /\
+  split_ok Rops st (c_leaf c) (c_feat c) (c_thr c) = true /\
+  In (c_left c, c_right c) (target_pairs st (c_leaf c)).
+Proof.
+  intros Hin. unfold candidates in Hin.
+  apply in_flat_map in Hin; destruct Hin as (j & Hj & Hin).
+  apply in_flat_map in Hin; destruct Hin as (f & Hf & Hin).
+  apply in_flat_map in Hin; destruct Hin as (i & Hi & Hin).
+  destruct (split_ok Rops st j f (ks_X st i f)) eqn:Hok; [|contradiction].
+  apply in_map_iff in Hin; destruct Hin as ([a b] & Hc & Hab). subst c. cbn [c_leaf c_feat c_thr c_left c_right fst snd].
+  repeat split; auto. exists i. split; auto.
+Qed.
+
+Lemma cand_intro (st : @kstate R) j f i a b :
+  In j (ks_explore st) -> In f (ks_feats st) -> In i (nth j (ks_leaves st) []) ->
+  split_ok Rops st j f (ks_X st i f) = true -> In (a, b) (target_pairs st j) ->
+  In (mkc j f (ks_X st i f) a b) (candidates Rops st).
+Proof.
+  intros Hj Hf Hi Hok Hab. unfold candidates.
+  apply in_flat_map. exists j. split; [exact Hj|].
+  apply in_flat_map. exists f. split; [exact Hf|].
+  apply in_flat_map. exists i. split; [exact Hi|].
+  rewrite Hok. apply in_map_iff. exists (a, b). split; [reflexivity | exact Hab].
+Qed.
+
+Lemma cand_eta (c : @cand R) : c = mkc (c_leaf c) (c_feat c) (c_thr c) (c_left c) (c_right c).
+Proof. destruct c; reflexivity. Qed.
+
+(* --- the precomputed matrices of find_best_split are stocks --- *)
+Lemma omega_sum (st : @kstate R) c S :
+  rsuml (map (fun i => omega_of Rops st c i) S) = sig (ks_kernel st) (Cl st c) S.
+Proof.
+  unfold omega_of, Cl. change (lsum Rops) with rsuml. rewrite sig_unfold.
+  apply (rsuml_map_swap (fun i i' => ks_kernel st i' i)).
+Qed.
+Lemma gamma_sig (st : @kstate R) c c' : gamma_of Rops st c c' = sig (ks_kernel st) (Cl st c) (Cl st c').
+Proof. unfold gamma_of. change (lsum Rops) with rsuml. apply omega_sum. Qed.
+Lemma nth_map_seq {A} (f : nat -> A) n d k' : (k' < n)%nat -> nth k' (map f (seq 0 n)) d = f k'.
+Proof.
+  intros H. rewrite (nth_indep _ d (f 0%nat)) by (rewrite map_length, seq_length; exact H).
+  rewrite (map_nth f (seq 0 n) 0%nat k'), seq_nth by exact H. reflexivity.
+Qed.
+Lemma vget_dir omega nc S k' : (k' < nc)%nat ->
+  vget Rops (dir_stocks omega nc S) k' = rsuml (map (fun i => omega k' i) S).
+Proof.
+  intros H. unfold vget, dir_stocks. now rewrite nth_map_seq.
+Qed.
+
+(* the model's formula functions on canonical stocks are the regenerated formulas on [stocks_of] *)
+Lemma formulas_at_canon kap L Rr O P f0 :
+  let Ck := L ++ Rr ++ O in let Nl := L ++ Rr in
+  let s := stocks_of kap L Rr O P f0 in
+  star_f Rops (sig kap L L) (sig kap Ck Ck) (sig kap Ck L) (length Ck) (length L) = left_star s /\
+  star_f Rops (sig kap Rr Rr) (sig kap Ck Ck) (sig kap Ck Rr) (length Ck) (length Nl - length L) = right_star s /\
+  left_switch_f Rops (sig kap L L) (sig kap Ck Ck) (sig kap P P) (sig kap Ck L) (sig kap P L) (length Ck) (length P) (length L) = left_switch s /\
+  left_switch_f Rops (sig kap Rr Rr) (sig kap Ck Ck) (sig kap P P) (sig kap Ck Rr) (sig kap P Rr) (length Ck) (length P) (length Nl - length L) = right_switch s /\
+  corrective_f Rops (sig kap L L) (sig kap Rr Rr) (sig kap Nl Nl) (sig kap Ck Ck) (sig kap Ck L) (sig kap Ck Rr) (length Ck) (length Nl) (length L) = corrective_term s.
+Proof.
+  intros Ck Nl s.
+  destruct (asis_formulas_regenerated (sig kap L L) (sig kap Rr Rr) (sig kap Nl Nl) (sig kap Ck L) (sig kap Ck Rr)
+              (sig kap P L) (sig kap P Rr) (sig kap Ck Ck) (sig kap P P) (sig kap Ck [f0])
+              (length Nl) (length L) (length Ck) (length P)) as (H1 & H2 & H3 & H4 & H5 & _).
+  - unfold Nl. rewrite app_length. lia.
+  - unfold Nl, Ck. rewrite !app_length. lia.
+  - repeat split; assumption.
+Qed.
+
+Lemma in_entries_of sl sr slc src cs gamma n_leaf k split_size ks e :
+  In e (entries_of sl sr slc src cs gamma n_leaf k split_size ks) <->
+  exists k', In k' ks /\ k' <> k /\ e = (k', (ls_of sl slc cs gamma k split_size k', rs_of sr src cs gamma n_leaf k split_size k')).
+Proof.
+  induction ks as [|k0 ks IH].
+  - simpl. split; [intros [] | intros (k' & [] & _)].
+  - rewrite entries_of_cons. split.
+    + intros H. apply in_app_or in H. destruct H as [H|H].
+      * destruct (Nat.eqb_spec k k0); [contradiction|]. destruct H as [<-|[]]. exists k0. repeat split; [now left | congruence].
+      * apply IH in H. destruct H as (k' & H1 & H2 & H3). exists k'. repeat split; auto. now right.
+    + intros (k' & [<-|H1] & H2 & H3).
+      * apply in_or_app. left. destruct (Nat.eqb_spec k k0); [congruence|]. left. now rewrite H3.
+      * apply in_or_app. right. apply IH. exists k'. auto.
+Qed.
+
+(* --- one split position: the values evaluated there are the gains of the candidates with that threshold --- *)
+Ltac pinj E v a b :=
+  apply pair_equal_spec in E; destruct E as [?Ev E]; apply pair_equal_spec in E; destruct E as [?Ea ?Eb]; subst v a b.
+
+Section PositionGain.
+Variable st : @kstate R.
+Hypothesis Hok : state_ok st.
+Variables j f : nat.
+Hypothesis Hj : (j < length (ks_leaves st))%nat.
+Let kap := ks_kernel st.
+Let cls := ks_cl st.
+Let lvs := ks_leaves st.
+Let leaf := nth j lvs [].
+Let k := nth j cls 0%nat.
+Let nc := ks_nc st.
+Let kmax := ks_kmax st.
+Variables (Sl Sr : list nat) (t lf : R) (slc src : nat -> R).
+Let L := left_part Rops st j f t.
+Let Rr := right_part Rops st j f t.
+Let O := others cls lvs j k.
+Let Ck := L ++ Rr ++ O.
+Hypothesis PL : Permutation Sl L.
+Hypothesis PR : Permutation Sr Rr.
+Hypothesis HL : L <> [].
+Hypothesis HR : Rr <> [].
+Hypothesis Hlf : lf = sig kap (Sl ++ Sr) (Sl ++ Sr).
+Hypothesis Hslc : forall k', (k' < nc)%nat -> slc k' = rsuml (map (fun i => omega_of Rops st k' i) Sl).
+Hypothesis Hsrc : forall k', (k' < nc)%nat -> src k' = rsuml (map (fun i => omega_of Rops st k' i) Sr).
+Let SL := sig kap Sl Sl.
+Let SR := sig kap Sr Sr.
+Let n_leaf := length leaf.
+Let split_size := length Sl.
+Let PV := pos_values SL SR lf slc src (csize st) (gamma_of Rops st) (omega_of Rops st) n_leaf nc kmax k split_size f.
+
+Let Hsym : symmetric kap := proj1 Hok.
+Let Hlen : length cls = length lvs := proj1 (proj2 Hok).
+Let Hcl : Forall (fun x => (x < nc)%nat) cls := proj1 (proj2 (proj2 Hok)).
+Let Hnk : (nc <= kmax)%nat := proj1 (proj2 (proj2 (proj2 (proj2 Hok)))).
+Let Hne : forall k', (k' < nc)%nat -> Cl st k' <> [] := proj2 (proj2 (proj2 (proj2 (proj2 Hok)))).
+
+Lemma pg_k_lt : (k < nc)%nat.
+Proof. unfold k. rewrite Forall_forall in Hcl. apply Hcl, nth_In. rewrite Hlen. exact Hj. Qed.
+
+Lemma pg_leaf_perm : Permutation leaf (L ++ Rr).
+Proof. apply Permutation_sym. unfold L, Rr, left_part, right_part. apply filter_partition_perm. Qed.
+
+Lemma pg_Ck_perm : Permutation (Cl st k) Ck.
+Proof.
+  pose proof (members_before st (mkc j f t 0 0) Hlen Hj k) as H.
+  unfold before_list in H. cbn [c_leaf c_feat c_thr mkc] in H. fold cls lvs k in H. rewrite Nat.eqb_refl in H.
+  fold L Rr O in H. unfold Ck. rewrite app_assoc. exact H.
+Qed.
+
+Lemma pg_wf a b : wf_state st (mkc j f t a b).
+Proof. repeat split; assumption. Qed.
+
+Lemma pg_canon :
+  SL = sig kap L L /\ SR = sig kap Rr Rr /\ lf = sig kap (L ++ Rr) (L ++ Rr) /\
+  gamma_of Rops st k k = sig kap Ck Ck /\ slc k = sig kap Ck L /\ src k = sig kap Ck Rr /\
+  csize st k = length Ck /\ n_leaf = length (L ++ Rr) /\ split_size = length L /\
+  (forall k1, (k1 < nc)%nat -> slc k1 = sig kap (Cl st k1) L /\ src k1 = sig kap (Cl st k1) Rr).
+Proof.
+  pose proof pg_k_lt as Hk. pose proof pg_Ck_perm as PC.
+  assert (PN : Permutation (Sl ++ Sr) (L ++ Rr)) by (apply Permutation_app; assumption).
+  repeat split.
+  - unfold SL. now rewrite (sig_perm_l kap _ _ _ PL), (sig_perm_r kap _ _ _ PL).
+  - unfold SR. now rewrite (sig_perm_l kap _ _ _ PR), (sig_perm_r kap _ _ _ PR).
+  - rewrite Hlf. now rewrite (sig_perm_l kap _ _ _ PN), (sig_perm_r kap _ _ _ PN).
+  - rewrite gamma_sig. fold kap. now rewrite (sig_perm_l kap _ _ _ PC), (sig_perm_r kap _ _ _ PC).
+  - rewrite (Hslc k Hk), omega_sum. fold kap. now rewrite (sig_perm_l kap _ _ _ PC), (sig_perm_r kap _ _ _ PL).
+  - rewrite (Hsrc k Hk), omega_sum. fold kap. now rewrite (sig_perm_l kap _ _ _ PC), (sig_perm_r kap _ _ _ PR).
+  - unfold csize. exact (Permutation_length PC).
+  - unfold n_leaf. exact (Permutation_length pg_leaf_perm).
+  - unfold split_size. exact (Permutation_length PL).
+  - rewrite (Hslc k1 H), omega_sum. fold kap. now rewrite (sig_perm_r kap _ _ _ PL).
+  - rewrite (Hsrc k1 H), omega_sum. fold kap. now rewrite (sig_perm_r kap _ _ _ PR).
+Qed.
+
+Lemma pg_O_ne : negb (n_leaf =? csize st k)%nat = true -> O <> [].
+Proof.
+  intros Hflag. unfold n_leaf, leaf, k, cls, lvs in Hflag. rewrite (csize_split st j Hlen Hj) in Hflag.
+  intros E. unfold O, k, cls, lvs in E. rewrite E in Hflag. cbn [length] in Hflag.
+  rewrite Nat.add_0_r, Nat.eqb_refl in Hflag. discriminate.
+Qed.
+
+(* the switch values of cluster k1 *)
+Lemma pg_ls k1 f0 : (k1 < nc)%nat ->
+  ls_of SL slc (csize st) (gamma_of Rops st) k split_size k1 = left_switch (stocks_of kap L Rr O (Cl st k1) f0) /\
+  rs_of SR src (csize st) (gamma_of Rops st) n_leaf k split_size k1 = right_switch (stocks_of kap L Rr O (Cl st k1) f0).
+Proof.
+  intros H1. destruct pg_canon as (E1 & E2 & E3 & E4 & E5 & E6 & E7 & E8 & E9 & E10). destruct (E10 k1 H1) as [E11 E12].
+  unfold Ck in *. unfold ls_of, rs_of. rewrite E1, E2, E4, E5, E6, E7, E8, E9, E11, E12, gamma_sig. fold kap.
+  change (csize st k1) with (length (Cl st k1)).
+  destruct (formulas_at_canon kap L Rr O (Cl st k1) f0) as (_ & _ & F3 & F4 & _). split; assumption.
+Qed.
+
+Lemma pg_corr P f0 :
+  corrective_f Rops SL SR lf (gamma_of Rops st k k) (slc k) (src k) (csize st k) n_leaf split_size
+  = corrective_term (stocks_of kap L Rr O P f0).
+Proof.
+  destruct pg_canon as (E1 & E2 & E3 & E4 & E5 & E6 & E7 & E8 & E9 & _).
+  unfold Ck in *. rewrite E1, E2, E3, E4, E5, E6, E7, E8, E9.
+  destruct (formulas_at_canon kap L Rr O P f0) as (_ & _ & _ & _ & F5). exact F5.
+Qed.
+
+Lemma pos_values_sound v a b : In (v, (a, b)) PV -> In (a, b) (target_pairs st j) /\ v = gain Rops st (mkc j f t a b).
+Proof.
+  intros Hin. pose proof pg_k_lt as Hk.
+  destruct pg_canon as (E1 & E2 & E3 & E4 & E5 & E6 & E7 & E8 & E9 & E10).
+  unfold Ck in *. unfold PV, pos_values in Hin. unfold target_pairs. fold cls lvs k nc kmax leaf n_leaf.
+  apply in_app_or in Hin; destruct Hin as [Hin|Hin].
+  { (* double star *)
+    unfold vals_dstar in Hin. destruct (g_double_star nc kmax n_leaf (csize st k)) eqn:G; [|contradiction].
+    destruct Hin as [E|[]]. pinj E v a b.
+    unfold g_double_star in G. apply andb_prop in G. destruct G as [G1 G2]. apply Nat.ltb_lt in G1.
+    split.
+    - apply in_or_app; right. apply in_or_app; left.
+      replace (S nc <? kmax)%nat with true by (symmetry; apply Nat.ltb_lt; lia). rewrite G2. now left.
+    - rewrite E1, E2, E3, E4, E5, E6, E7, E8, E9.
+      apply (double_star_corrected_gain st (mkc j f t nc (S nc)) (omega_of Rops st k f) (pg_wf _ _)); try reflexivity; try assumption.
+      + fold kmax nc. lia.
+      + apply pg_O_ne. exact G2. }
+  apply in_app_or in Hin; destruct Hin as [Hin|Hin].
+  { (* star *)
+    unfold vals_star in Hin. destruct (g_star nc kmax) eqn:G; [|contradiction]. unfold g_star in G.
+    destruct (formulas_at_canon kap L Rr O [] 0%nat) as (F1 & F2 & _).
+    destruct Hin as [E|[E|[]]]; pinj E v a b.
+    - split; [apply in_or_app; left; rewrite G; now left|].
+      rewrite E1, E4, E5, E7, E9, F1. apply (left_star_gain st (mkc j f t nc k) [] 0%nat (pg_wf _ _)); try reflexivity; try assumption.
+      apply Nat.ltb_lt in G. exact G.
+    - split; [apply in_or_app; left; rewrite G; right; now left|].
+      rewrite E2, E4, E6, E7, E8, E9, F2. apply (right_star_gain st (mkc j f t k nc) [] 0%nat (pg_wf _ _)); try reflexivity; try assumption.
+      apply Nat.ltb_lt in G. exact G. }
+  apply in_app_or in Hin; destruct Hin as [Hin|Hin].
+  { (* switch *)
+    unfold vals_switch in Hin. destruct (g_switch nc) eqn:G; [|contradiction]. unfold g_switch in G.
+    unfold vals_switch_of in Hin. apply in_flat_map in Hin. destruct Hin as (e & He & Hin).
+    apply in_entries_of in He. destruct He as (k1 & Hk1 & Hne1 & ->). apply in_seq in Hk1.
+    destruct (pg_ls k1 0%nat ltac:(lia)) as [Fl Fr].
+    assert (Hsw : In (k1, k) (flat_map (fun k' => if (k' =? k)%nat then [] else [(k', k); (k, k')]) (seq 0 nc)) /\
+                  In (k, k1) (flat_map (fun k' => if (k' =? k)%nat then [] else [(k', k); (k, k')]) (seq 0 nc))).
+    { split; apply in_flat_map; exists k1; (split; [apply in_seq; lia|]);
+        (destruct (Nat.eqb_spec k1 k); [congruence|]); [now left | right; now left]. }
+    destruct Hin as [E|[E|[]]]; pinj E v a b; cbn [e_gl e_gr e_id fst snd].
+    - split; [apply in_or_app; right; apply in_or_app; right; apply in_or_app; left; rewrite G; apply Hsw|].
+      rewrite Fl. apply (left_switch_gain st (mkc j f t k1 k) 0%nat (pg_wf _ _)); try reflexivity; try assumption; cbn [c_left mkc]; try (fold nc; lia).
+      apply Hne. lia.
+    - split; [apply in_or_app; right; apply in_or_app; right; apply in_or_app; left; rewrite G; apply Hsw|].
+      rewrite Fr. apply (right_switch_gain st (mkc j f t k k1) 0%nat (pg_wf _ _)); try reflexivity; try assumption; cbn [c_right mkc]; try (fold nc; lia).
+      apply Hne. lia. }
+  { (* reallocation *)
+    unfold vals_realloc in Hin. destruct (g_switch nc && g_realloc nc n_leaf (csize st k))%bool eqn:G; [|contradiction].
+    apply andb_prop in G. destruct G as [_ G]. unfold g_realloc in G. apply andb_prop in G. destruct G as [G1 G2].
+    apply in_flat_map in Hin. destruct Hin as (e1 & He1 & Hin). apply in_flat_map in Hin. destruct Hin as (e2 & He2 & Hin).
+    apply in_entries_of in He1. destruct He1 as (k1 & Hk1 & Hne1 & ->). apply in_seq in Hk1.
+    apply in_entries_of in He2. destruct He2 as (k2 & Hk2 & Hne2 & ->). apply in_seq in Hk2.
+    cbn [e_id e_gl e_gr fst snd] in Hin.
+    destruct (Nat.eqb_spec k1 k2) as [|Hd]; [contradiction|]. destruct Hin as [E|[]]. pinj E v a b.
+    destruct (pg_ls k1 0%nat ltac:(lia)) as [Fl _]. destruct (pg_ls k2 0%nat ltac:(lia)) as [_ Fr].
+    split.
+    - apply in_or_app; right; apply in_or_app; right; apply in_or_app; right. rewrite G1, G2. cbn [andb].
+      apply in_flat_map. exists k1. split; [apply in_seq; lia|]. apply in_flat_map. exists k2. split; [apply in_seq; lia|].
+      destruct (Nat.eqb_spec k1 k); [congruence|]. destruct (Nat.eqb_spec k2 k); [congruence|].
+      destruct (Nat.eqb_spec k1 k2); [congruence|]. now left.
+    - rewrite Fl, Fr, (pg_corr (Cl st k1) 0%nat).
+      apply (realloc_gain st (mkc j f t k1 k2) 0%nat (pg_wf _ _)); try reflexivity; try assumption; cbn [c_left c_right mkc]; try (fold nc; lia).
+      + apply pg_O_ne. exact G2.
+      + apply Hne. lia.
+      + apply Hne. lia. }
+Qed.
+Lemma pos_values_complete a b : In (a, b) (target_pairs st j) -> exists v, In (v, (a, b)) PV.
+Proof.
+  intros Hab. unfold target_pairs in Hab. fold cls lvs k nc kmax leaf n_leaf in Hab.
+  unfold PV, pos_values.
+  set (ent := fun k1 => (k1, (ls_of SL slc (csize st) (gamma_of Rops st) k split_size k1,
+                              rs_of SR src (csize st) (gamma_of Rops st) n_leaf k split_size k1)) : entry).
+  assert (Hent : forall k1, (k1 < nc)%nat -> k1 <> k ->
+            In (ent k1) (entries_of SL SR slc src (csize st) (gamma_of Rops st) n_leaf k split_size (seq 0 nc))).
+  { intros k1 H1 H2. apply in_entries_of. exists k1. repeat split; [apply in_seq; lia | exact H2]. }
+  apply in_app_or in Hab; destruct Hab as [Hab|Hab].
+  { destruct (nc <? kmax)%nat eqn:G; [|contradiction].
+    destruct Hab as [E|[E|[]]]; apply pair_equal_spec in E; destruct E as [<- <-];
+      eexists; apply in_or_app; right; apply in_or_app; left; unfold vals_star, g_star; rewrite G; [left | right; left]; reflexivity. }
+  apply in_app_or in Hab; destruct Hab as [Hab|Hab].
+  { destruct ((S nc <? kmax)%nat && negb (n_leaf =? csize st k)%nat)%bool eqn:G; [|contradiction].
+    apply andb_prop in G. destruct G as [G1 G2]. apply Nat.ltb_lt in G1.
+    destruct Hab as [E|[]]. apply pair_equal_spec in E; destruct E as [<- <-].
+    eexists. apply in_or_app; left. unfold vals_dstar, g_double_star.
+    replace (nc <? kmax - 1)%nat with true by (symmetry; apply Nat.ltb_lt; lia). rewrite G2. left; reflexivity. }
+  apply in_app_or in Hab; destruct Hab as [Hab|Hab].
+  { destruct (2 <=? nc)%nat eqn:G; [|contradiction].
+    apply in_flat_map in Hab. destruct Hab as (k1 & Hk1 & Hab). apply in_seq in Hk1.
+    destruct (Nat.eqb_spec k1 k) as [|Hne1]; [contradiction|].
+    destruct Hab as [E|[E|[]]]; apply pair_equal_spec in E; destruct E as [<- <-];
+      eexists; apply in_or_app; right; apply in_or_app; right; apply in_or_app; left;
+      unfold vals_switch, g_switch; rewrite G; unfold vals_switch_of; apply in_flat_map; exists (ent k1);
+      (split; [apply Hent; lia|]); [left | right; left]; reflexivity. }
+  { destruct ((3 <=? nc)%nat && negb (n_leaf =? csize st k)%nat)%bool eqn:G; [|contradiction].
+    apply andb_prop in G. destruct G as [G1 G2].
+    apply in_flat_map in Hab. destruct Hab as (k1 & Hk1 & Hab). apply in_seq in Hk1.
+    apply in_flat_map in Hab. destruct Hab as (k2 & Hk2 & Hab). apply in_seq in Hk2.
+    destruct (Nat.eqb_spec k1 k); [contradiction|]. destruct (Nat.eqb_spec k2 k); [contradiction|].
+    destruct (Nat.eqb_spec k1 k2); [contradiction|]. cbn [orb] in Hab.
+    destruct Hab as [E|[]]. apply pair_equal_spec in E; destruct E as [<- <-].
+    eexists. apply in_or_app; right; apply in_or_app; right; apply in_or_app; right.
+    unfold vals_realloc, g_switch, g_realloc. rewrite G1, G2.
+    replace (2 <=? nc)%nat with true by (symmetry; apply Nat.leb_le; apply Nat.leb_le in G1; lia). cbn [andb].
+    apply in_flat_map. exists (ent k1). split; [apply Hent; lia|].
+    apply in_flat_map. exists (ent k2). split; [apply Hent; lia|].
+    cbn [e_id ent fst]. destruct (Nat.eqb_spec k1 k2); [congruence|]. left; reflexivity. }
+Qed.
+End PositionGain.
+
+(* --- the invariant carried by the running best through the whole search --- *)
+Definition Inv (st : @kstate R) (Cov : @cand R -> Prop) (b : @split R) : Prop :=
+  0 <= sp_gain b /\
+  (forall c, In c (candidates Rops st) -> Cov c -> gain Rops st c <= sp_gain b) /\
+  match sp_cand b with
+  | None => sp_gain b = 0
+  | Some c => In c (candidates Rops st) /\ sp_gain b = gain Rops st c
+  end.
+
+Lemma Inv_weaken st (Cov Cov' : @cand R -> Prop) b :
+  Inv st Cov b -> (forall c, In c (candidates Rops st) -> Cov' c -> Cov c) -> Inv st Cov' b.
+Proof. intros (H1 & H2 & H3) H. repeat split; auto. Qed.
+
+Section ScanLeafFeature.
+Variable st : @kstate R.
+Hypothesis Hok : state_ok st.
+Variables j f : nat.
+Hypothesis Hjex : In j (ks_explore st).
+Hypothesis Hfin : In f (ks_feats st).
+Let kap := ks_kernel st.
+Let leaf := nth j (ks_leaves st) [].
+Let k := nth j (ks_cl st) 0%nat.
+Let key := fun i => ks_X st i f.
+Let nu := sort_by Rops key leaf.
+Let n_leaf := length leaf.
+Let nc := ks_nc st.
+Let omega := omega_of Rops st.
+Variable lsq : R.
+Hypothesis Hlsq : lsq = sig kap nu nu.
+Variable Cov0 : @cand R -> Prop.
+
+Let Hj : (j < length (ks_leaves st))%nat.
+Proof. destruct Hok as (_ & _ & _ & Hex & _). rewrite Forall_forall in Hex. exact (Hex j Hjex). Qed.
+
+Definition CovRest (rest : list nat) (c : @cand R) : Prop :=
+  c_leaf c = j /\ c_feat c = f /\ forall z, In z rest -> c_thr c < key z.
+Definition JF (c : @cand R) : Prop := c_leaf c = j /\ c_feat c = f.
+
+Let visit := scan_visit Rops true true st (gamma_of Rops st) omega j k f n_leaf lsq.
+
+Lemma nu_perm : Permutation nu leaf. Proof. apply sort_by_perm. Qed.
+Lemma nu_srt : srt key nu. Proof. apply sort_by_srt. Qed.
+
+(* a boundary pre ++ [x] | rest' of the sorted leaf with key x < every key of rest' *)
+Lemma boundary_parts pre x rest' : nu = pre ++ x :: rest' -> (forall z, In z rest' -> key x < key z) ->
+  Permutation (pre ++ [x]) (left_part Rops st j f (key x)) /\ Permutation rest' (right_part Rops st j f (key x)).
+Proof.
+  intros Hnu Hlt. pose proof nu_srt as Hs. rewrite Hnu in Hs.
+  destruct (boundary_filters key pre x rest' Hs Hlt) as [F1 F2].
+  unfold left_part, right_part. fold leaf. rops. split.
+  - rewrite <- F1, <- Hnu. apply filter_perm, nu_perm.
+  - rewrite <- F2, <- Hnu. apply filter_perm, nu_perm.
+Qed.
+
+(* a candidate on (j, f) whose threshold is below every key of rest' but not below key x sits exactly at x *)
+Lemma new_cand pre x rest' c : nu = pre ++ x :: rest' -> In c (candidates Rops st) ->
+  CovRest rest' c -> ~ c_thr c < key x -> rest' <> [] ->
+  c_thr c = key x /\ (forall z, In z rest' -> key x < key z).
+Proof.
+  intros Hnu Hc (Hcj & Hcf & Hlt) Hnlt Hne.
+  destruct (cand_elim st c Hc) as (_ & _ & (i & Hi & Hthr) & _ & _).
+  rewrite Hcj, Hcf in *. fold leaf in Hi. fold (key i) in Hthr.
+  assert (Hinu : In i nu) by (apply (Permutation_in _ (Permutation_sym nu_perm)); exact Hi).
+  rewrite Hnu in Hinu. pose proof nu_srt as Hs. rewrite Hnu in Hs. destruct (srt_app key pre (x :: rest') Hs) as [_ Hpre].
+  assert (Hle : key i <= key x).
+  { apply in_app_or in Hinu. destruct Hinu as [Hp|[<-|Hr]].
+    - apply Hpre; [exact Hp | now left].
+    - lra.
+    - specialize (Hlt i Hr). lra. }
+  assert (E : c_thr c = key x) by lra. split; [exact E|]. intros z Hz. rewrite <- E. now apply Hlt.
+Qed.
+
+Lemma split_ok_lengths pre x rest' : nu = pre ++ x :: rest' -> (forall z, In z rest' -> key x < key z) ->
+  split_ok Rops st j f (key x) =
+  ((Nat.max 1 (ks_minleaf st) <=? S (length pre))%nat && (Nat.max 1 (ks_minleaf st) <=? length rest')%nat)%bool /\
+  n_leaf = (length pre + 1 + length rest')%nat.
+Proof.
+  intros Hnu Hlt. destruct (boundary_parts pre x rest' Hnu Hlt) as [P1 P2]. unfold split_ok.
+  rewrite <- (Permutation_length P1), <- (Permutation_length P2), app_length. cbn [length].
+  replace (length pre + 1)%nat with (S (length pre)) by lia. split; [reflexivity|].
+  unfold n_leaf. rewrite <- (Permutation_length nu_perm), Hnu, app_length. cbn [length]. lia.
+Qed.
+
+Lemma visit_step pre x y r acc : nu = pre ++ x :: y :: r ->
+  Inv st (fun c => CovRest (x :: y :: r) c \/ Cov0 c) acc ->
+  Inv st (fun c => CovRest (y :: r) c \/ Cov0 c)
+      (visit acc pre x (y :: r) (sig kap (pre ++ [x]) (pre ++ [x])) (sig kap (y :: r) (y :: r))
+             (dir_stocks omega nc (pre ++ [x])) (dir_stocks omega nc (y :: r))).
+Proof.
+  intros Hnu HI. unfold visit, scan_visit. cbn [hd]. fold (key x) (key y). set (rest' := y :: r) in *.
+  assert (Hsk : forall c, In c (candidates Rops st) -> CovRest rest' c \/ Cov0 c ->
+                 (CovRest (x :: rest') c \/ Cov0 c) \/ (CovRest rest' c /\ c_thr c = key x /\ forall z, In z rest' -> key x < key z)).
+  { intros c Hc [HC|H0]; [|left; now right].
+    destruct (Rlt_dec (c_thr c) (key x)) as [Hl|Hnl].
+    - left; left. destruct HC as (A & B & C). repeat split; auto. intros z [<-|Hz]; auto.
+    - right. destruct (new_cand pre x rest' c Hnu Hc HC Hnl ltac:(discriminate)) as [E Hlt]. auto. }
+  (* skipped positions keep the invariant because no candidate sits there *)
+  assert (Hskip : (forall c, In c (candidates Rops st) -> CovRest rest' c -> c_thr c = key x ->
+                    (forall z, In z rest' -> key x < key z) -> False) ->
+                  Inv st (fun c => CovRest rest' c \/ Cov0 c) acc).
+  { intros Hno. apply (Inv_weaken st _ _ acc HI). intros c Hc Hcov.
+    destruct (Hsk c Hc Hcov) as [H|(H1 & H2 & H3)]; [exact H | exfalso; eapply Hno; eauto]. }
+  destruct ((S (length pre) <? ks_minleaf st)%nat || (n_leaf <? length pre + ks_minleaf st + 1)%nat)%bool eqn:Tm.
+  { apply Hskip. intros c Hc HC E Hlt.
+    destruct (split_ok_lengths pre x rest' Hnu Hlt) as [Eok En].
+    destruct (cand_elim st c Hc) as (_ & _ & _ & Hsok & _). destruct HC as (A & B & _). rewrite A, B, E in Hsok.
+    rewrite Eok in Hsok. apply andb_prop in Hsok. destruct Hsok as [S1 S2]. apply Nat.leb_le in S1, S2.
+    apply orb_prop in Tm. destruct Tm as [T|T]; apply Nat.ltb_lt in T; lia. }
+  rops. unfold Reqb. destruct (Req_EM_T (key x) (key y)) as [Eq|Neq].
+  { apply Hskip. intros c Hc HC E Hlt. specialize (Hlt y (or_introl eq_refl)). lra. }
+  (* a visited position *)
+  pose proof nu_srt as Hs. rewrite Hnu in Hs. destruct (srt_app key pre (x :: rest') Hs) as [[Hx Hr] _].
+  assert (Hlt : forall z, In z rest' -> key x < key z).
+  { intros z [<-|Hz].
+    - specialize (Hx y (or_introl eq_refl)). lra.
+    - destruct Hr as [Hy _]. specialize (Hx y (or_introl eq_refl)). specialize (Hy z Hz). lra. }
+  destruct (boundary_parts pre x rest' Hnu Hlt) as [P1 P2].
+  destruct (split_ok_lengths pre x rest' Hnu Hlt) as [Eok En].
+  assert (Hsok : split_ok Rops st j f (key x) = true).
+  { rewrite Eok. apply orb_false_elim in Tm. destruct Tm as [T1 T2]. apply Nat.ltb_ge in T1, T2.
+    apply andb_true_intro. split; apply Nat.leb_le; unfold rest' in *; cbn [length] in *; lia. }
+  assert (HLne : left_part Rops st j f (key x) <> []).
+  { intros E. rewrite E in P1. apply Permutation_sym, Permutation_nil in P1. destruct pre; discriminate. }
+  assert (HRne : right_part Rops st j f (key x) <> []).
+  { intros E. rewrite E in P2. apply Permutation_sym, Permutation_nil in P2. discriminate. }
+  assert (Hxleaf : In x leaf).
+  { apply (Permutation_in _ nu_perm). rewrite Hnu. apply in_or_app. right. now left. }
+  set (Sl := pre ++ [x]) in *.
+  set (slc := vget Rops (dir_stocks omega nc Sl)). set (src := vget Rops (dir_stocks omega nc rest')).
+  assert (Hlf : lsq = sig kap (Sl ++ rest') (Sl ++ rest')).
+  { rewrite Hlsq, Hnu. unfold Sl. rewrite <- app_assoc. reflexivity. }
+  assert (Hslc : forall k', (k' < ks_nc st)%nat -> slc k' = rsuml (map (fun i => omega_of Rops st k' i) Sl))
+    by (intros; unfold slc; now apply vget_dir).
+  assert (Hsrc : forall k', (k' < ks_nc st)%nat -> src k' = rsuml (map (fun i => omega_of Rops st k' i) rest'))
+    by (intros; unfold src; now apply vget_dir).
+  replace (S (length pre)) with (length Sl) by (unfold Sl; rewrite app_length; cbn [length]; lia).
+  pose proof (compute_all_splits_fixed_covers (sig kap Sl Sl) (sig kap rest' rest') lsq slc src (csize st) (gamma_of Rops st) omega
+                n_leaf (ks_nc st) (ks_kmax st) k j (length Sl) f (key x) acc) as Hcov.
+  set (acc' := compute_all_splits Rops true true acc _ _ _ _ _ _ _ _ _ _ _ _ _ _ _ _) in *.
+  pose proof (pos_values_sound st Hok j f Hj Sl rest' (key x) lsq slc src P1 P2 HLne HRne Hlf Hslc Hsrc) as Hsound.
+  pose proof (pos_values_complete st Hok j f Hj Sl rest' lsq slc src) as Hcompl.
+  fold kap k leaf n_leaf omega in Hsound, Hcompl.
+  destruct HI as (I1 & I2 & I3). destruct Hcov as (C1 & C2 & C3).
+  repeat split.
+  - lra.
+  - intros c Hc Hcv. destruct (Hsk c Hc Hcv) as [H|(HC & E & _)].
+    + specialize (I2 c Hc H). lra.
+    + destruct HC as (A & B & _). destruct (cand_elim st c Hc) as (_ & _ & _ & _ & Hab). rewrite A in Hab.
+      destruct (Hcompl _ _ Hab) as (v & Hv). destruct (Hsound v _ _ Hv) as [_ Ev].
+      rewrite (cand_eta c), A, B, E, <- Ev. exact (C2 v _ Hv).
+  - destruct C3 as [->|(v & [a b] & Hv & ->)]; [exact I3|].
+    destruct (Hsound v a b Hv) as [Hab Ev]. cbn [mk set_split sp_cand sp_gain fst snd]. split; [|exact Ev].
+    apply (cand_intro st j f x a b Hjex Hfin Hxleaf Hsok Hab).
+Qed.
+
+Lemma scan_inv rest : forall pre acc, nu = pre ++ rest ->
+  Inv st (fun c => CovRest rest c \/ Cov0 c) acc ->
+  Inv st (fun c => JF c \/ Cov0 c) (scan_direct kap omega nc visit pre rest acc).
+Proof.
+  induction rest as [|x rest IH]; intros pre acc Hnu HI.
+  - apply (Inv_weaken st _ _ acc HI). intros c _ [[A B]|H]; [left; repeat split; auto; intros ? [] | now right].
+  - destruct rest as [|y r].
+    + cbn [scan_direct]. apply (Inv_weaken st _ _ acc HI). intros c Hc [[A B]|H]; [|now right]. left. repeat split; auto.
+      intros z [Ez|[]]. subst z.
+      destruct (cand_elim st c Hc) as (_ & _ & _ & Hsok & _). rewrite A, B in Hsok. unfold split_ok in Hsok.
+      apply andb_prop in Hsok. destruct Hsok as [_ S2]. apply Nat.leb_le in S2.
+      destruct (right_part Rops st j f (c_thr c)) as [|i R'] eqn:ER; [cbn [length] in S2; lia|].
+      assert (Hi : In i (right_part Rops st j f (c_thr c))) by (rewrite ER; now left).
+      unfold right_part in Hi. apply filter_In in Hi. destruct Hi as [Hil Hik]. fold leaf in Hil. rops. unfold Rleb in Hik.
+      fold (key i) in Hik. destruct (Rle_dec (key i) (c_thr c)) as [|Hgt]; [discriminate|].
+      assert (Hinu : In i nu) by (apply (Permutation_in _ (Permutation_sym nu_perm)); exact Hil).
+      rewrite Hnu in Hinu. pose proof nu_srt as Hs. rewrite Hnu in Hs. destruct (srt_app key pre [x] Hs) as [_ Hpre].
+      apply in_app_or in Hinu. destruct Hinu as [Hp|[<-|[]]]; [specialize (Hpre i x Hp (or_introl eq_refl)); lra | lra].
+    + cbn [scan_direct]. apply IH.
+      * rewrite Hnu, <- app_assoc. reflexivity.
+      * apply visit_step; assumption.
+Qed.
+End ScanLeafFeature.
+
+Lemma fold_inv {A} st (step : @split R -> A -> @split R) (P : A -> @cand R -> Prop) (l : list A) :
+  (forall a b Cov, In a l -> Inv st Cov b -> Inv st (fun c => P a c \/ Cov c) (step b a)) ->
+  forall b Cov, Inv st Cov b -> Inv st (fun c => (exists a, In a l /\ P a c) \/ Cov c) (fold_left step l b).
+Proof.
+  induction l as [|a l IH]; intros Hstep b Cov HI; cbn [fold_left].
+  - apply (Inv_weaken st _ _ b HI). intros c _ [(a & [] & _)|H]; exact H.
+  - pose proof (Hstep a b Cov (or_introl eq_refl) HI) as H1.
+    pose proof (IH (fun a' b' Cov' Hin => Hstep a' b' Cov' (or_intror Hin)) _ _ H1) as H2.
+    apply (Inv_weaken st _ _ _ H2). intros c _ [(a' & [<-|Hin] & Hp)|H].
+    + right. now left.
+    + left. exists a'. split; assumption.
+    + right. now right.
+Qed.
+
+(* the loop of find_best on one (leaf, feature) is the loop on directly computed stocks *)
+Lemma inner_scan_direct (st : @kstate R) j f B (visit : R -> B -> list nat -> nat -> list nat -> R -> R -> list R -> list R -> B) best :
+  symmetric (ks_kernel st) ->
+  let leaf := nth j (ks_leaves st) [] in
+  let nu := sort_by Rops (fun i => ks_X st i f) leaf in
+  let omega := omega_of Rops st in
+  let lsq := lsum Rops (map (fun i => Lambda_of Rops st j i) leaf) in
+  scan_gen Rops (ks_kernel st) omega (ks_nc st) (visit lsq) [] nu (n0 Rops) lsq
+           (map (fun _ => n0 Rops) (seq 0 (ks_nc st)))
+           (map (fun c => lsum Rops (map (fun i => omega c i) leaf)) (seq 0 (ks_nc st))) best
+  = scan_direct (ks_kernel st) omega (ks_nc st) (visit lsq) [] nu best /\ lsq = sig (ks_kernel st) nu nu.
+Proof.
+  intros Hsym leaf nu omega lsq.
+  assert (El : lsq = sig (ks_kernel st) nu nu) by (apply (leaf_square_is_stock st j (fun i => ks_X st i f) Hsym)).
+  split; [|exact El].
+  rewrite <- (incremental_stocks_correct (ks_kernel st) omega (ks_nc st) (visit lsq) Hsym nu [] best).
+  rewrite <- El. f_equal.
+  unfold dir_stocks. apply map_ext. intros c. change (lsum Rops) with rsuml. apply rsuml_perm, Permutation_map, Permutation_sym, sort_by_perm.
+Qed.
+
+Definition argmax_result (st : @kstate R) (r : @split R) : Prop :=
+  0 <= sp_gain r /\
+  (forall c, In c (candidates Rops st) -> gain Rops st c <= sp_gain r) /\
+  match sp_cand r with
+  | None => sp_gain r = 0
+  | Some c => In c (candidates Rops st) /\ sp_gain r = gain Rops st c
+  end.
+
+Lemma find_best_repaired_is_argmax : forall st : @kstate R, state_ok st -> argmax_result st (find_best Rops true true st).
+Proof.
+  intros st Hok.
+  assert (H0 : Inv st (fun _ => False) (split0 Rops)).
+  { repeat split; simpl; try lra. intros ? _ []. }
+  unfold find_best.
+  pose proof (fold_inv st
+    (fun best j =>
+       let leaf := nth j (ks_leaves st) [] in
+       let k := nth j (ks_cl st) 0%nat in
+       let n_leaf := length leaf in
+       fold_left (fun best f =>
+         let nu := sort_by Rops (fun i => ks_X st i f) leaf in
+         let leaf_square := lsum Rops (map (fun i => Lambda_of Rops st j i) leaf) in
+         let src0 := map (fun c => lsum Rops (map (fun i => omega_of Rops st c i) leaf)) (seq 0 (ks_nc st)) in
+         let slc0 := map (fun _ => n0 Rops) (seq 0 (ks_nc st)) in
+         scan_gen Rops (ks_kernel st) (omega_of Rops st) (ks_nc st)
+                  (scan_visit Rops true true st (gamma_of Rops st) (omega_of Rops st) j k f n_leaf leaf_square)
+                  [] nu (n0 Rops) leaf_square slc0 src0 best) (ks_feats st) best)
+    (fun j c => exists f, In f (ks_feats st) /\ JF j f c) (ks_explore st)) as Hfold.
+  cbv zeta in Hfold.
+  assert (Hres : Inv st (fun c => (exists j, In j (ks_explore st) /\ exists f, In f (ks_feats st) /\ JF j f c) \/ False)
+                   (find_best Rops true true st)).
+  { apply Hfold; [|exact H0]. clear Hfold H0.
+    intros j b Cov Hj HI.
+    apply (fold_inv st _ (fun f c => JF j f c) (ks_feats st)); [|exact HI]. clear HI b Cov.
+    intros f b Cov Hf HI.
+    destruct (inner_scan_direct st j f _
+                (fun lsq => scan_visit Rops true true st (gamma_of Rops st) (omega_of Rops st) j (nth j (ks_cl st) 0%nat) f
+                                       (length (nth j (ks_leaves st) [])) lsq) b (proj1 Hok)) as [Eq Elsq].
+    cbv zeta in Eq, Elsq. rewrite Eq.
+    apply (scan_inv st Hok j f Hj Hf _ Elsq Cov (sort_by Rops (fun i => ks_X st i f) (nth j (ks_leaves st) [])) [] b eq_refl).
+    apply (Inv_weaken st _ _ b HI). intros c Hc [(A & B & Hlt)|H]; [exfalso | exact H].
+    destruct (cand_elim st c Hc) as (_ & _ & (i & Hi & Hthr) & _ & _). rewrite A, B in *.
+    assert (Hin : In i (sort_by Rops (fun i0 => ks_X st i0 f) (nth j (ks_leaves st) [])))
+      by (apply (Permutation_in _ (Permutation_sym (sort_by_perm _ _))); exact Hi).
+    specialize (Hlt i Hin). cbv beta in Hlt. lra. }
+  destruct Hres as (R1 & R2 & R3). repeat split; [exact R1 | | exact R3].
+  intros c Hc. apply (R2 c Hc). left.
+  destruct (cand_elim st c Hc) as (Hj & Hf & _). exists (c_leaf c). split; [exact Hj|]. exists (c_feat c). split; [exact Hf|]. split; reflexivity.
+Qed.
+
+(* --- where the as-is search coincides with the repaired one --- *)
+Lemma track_right_fix8_irrelevant (es : list entry) : (length es <= 2)%nat ->
+  track_right_from false track0 es = track_right_from true track0 es.
+Proof.
+  destruct es as [|e1 [|e2 [|e3 es]]]; intros H; cbn [length] in H; try lia; reflexivity.
+Qed.
+
+Lemma switch_fold_fix8 sl sr slc src cs gamma n_leaf k leaf_id split_size feat thr ks : forall b tl tr1 tr2,
+  let r1 := fold_left (switch_step Rops false sl sr slc src cs gamma n_leaf k leaf_id split_size feat thr) ks (b, tl, tr1) in
+  let r2 := fold_left (switch_step Rops true sl sr slc src cs gamma n_leaf k leaf_id split_size feat thr) ks (b, tl, tr2) in
+  fst r1 = fst r2.
+Proof.
+  induction ks as [|k' ks IH]; intros b tl tr1 tr2; cbn [fold_left]; [reflexivity|].
+  rewrite !switch_step_unfold. destruct (k =? k')%nat; apply IH.
+Qed.
+
+Lemma cas_asis_eq_repaired best sl sr lf slc src cs gamma omega n_leaf nc kmax k leaf_id split_size feat thr :
+  g_double_star nc kmax n_leaf (cs k) = false ->
+  (g_realloc nc n_leaf (cs k) = false \/ ((nc <= 3)%nat /\ (k < nc)%nat)) ->
+  compute_all_splits Rops false false best sl sr lf slc src cs gamma omega n_leaf nc kmax k leaf_id split_size feat thr =
+  compute_all_splits Rops true true best sl sr lf slc src cs gamma omega n_leaf nc kmax k leaf_id split_size feat thr.
+Proof.
+  intros Gd Gr. unfold compute_all_splits. rewrite Gd.
+  set (b2 := if g_star nc kmax then _ else best).
+  destruct (g_switch nc); [|reflexivity].
+  pose proof (switch_fold_fix8 sl sr slc src cs gamma n_leaf k leaf_id split_size feat thr (seq 0 nc) b2 track0 track0 track0) as Hf.
+  pose proof (switch_fold_tracks false sl sr slc src cs gamma n_leaf k leaf_id split_size feat thr (seq 0 nc) b2 track0 track0) as [_ Ht1].
+  pose proof (switch_fold_tracks true sl sr slc src cs gamma n_leaf k leaf_id split_size feat thr (seq 0 nc) b2 track0 track0) as [_ Ht2].
+  cbv zeta in Hf.
+  destruct (fold_left (switch_step Rops false _ _ _ _ _ _ _ _ _ _ _ _) (seq 0 nc) (b2, track0, track0)) as [[b3 tl] tr].
+  destruct (fold_left (switch_step Rops true _ _ _ _ _ _ _ _ _ _ _ _) (seq 0 nc) (b2, track0, track0)) as [[b3' tl'] tr'].
+  cbn [fst snd] in *. injection Hf as -> ->.
+  destruct (g_realloc nc n_leaf (cs k)) eqn:G; [|reflexivity].
+  destruct Gr as [Gr|[Hnc Hk]]; [discriminate|].
+  assert (Hlen : (length (entries_of sl sr slc src cs gamma n_leaf k split_size (seq 0 nc)) <= 2)%nat).
+  { pose proof (entries_of_length sl sr slc src cs gamma n_leaf k split_size (seq 0 nc)) as H. rewrite seq_length in H.
+    assert (Hin : In k (seq 0 nc)) by (apply in_seq; lia).
+    apply (count_occ_In Nat.eq_dec) in Hin. unfold entry in *. lia. }
+  rewrite Ht1, Ht2, (track_right_fix8_irrelevant _ Hlen). reflexivity.
+Qed.
+
+Lemma scan_gen_ext {B} kap omega nc (v1 v2 : B -> list nat -> nat -> list nat -> R -> R -> list R -> list R -> B) :
+  (forall acc pre x rest' a b c d, v1 acc pre x rest' a b c d = v2 acc pre x rest' a b c d) ->
+  forall rest pre sl sr slc src acc,
+  scan_gen Rops kap omega nc v1 pre rest sl sr slc src acc = scan_gen Rops kap omega nc v2 pre rest sl sr slc src acc.
+Proof.
+  intros H. induction rest as [|x rest IH]; intros; [reflexivity|].
+  destruct rest as [|y r]; [reflexivity|]. cbn [scan_gen]. rewrite H. apply IH.
+Qed.
+
+Lemma fold_left_ext_in {A B} (f g : A -> B -> A) l : (forall b, In b l -> forall a, f a b = g a b) ->
+  forall a, fold_left f l a = fold_left g l a.
+Proof.
+  induction l as [|b l IH]; intros H a; [reflexivity|]. cbn [fold_left].
+  rewrite (H b (or_introl eq_refl)). apply IH. intros b' Hb'. apply H. now right.
+Qed.
+
+(* no explorable leaf can evaluate a double star (F7), and the right-hand second tracker (F8) is never consulted
+   with three or more other clusters *)
+Definition asis_safe (st : @kstate R) : Prop :=
+  forall j, In j (ks_explore st) ->
+    let nl := length (nth j (ks_leaves st) []) in
+    let k := nth j (ks_cl st) 0%nat in
+    g_double_star (ks_nc st) (ks_kmax st) nl (csize st k) = false /\
+    (g_realloc (ks_nc st) nl (csize st k) = false \/ (ks_nc st <= 3)%nat).
+
+Lemma find_best_asis_eq_repaired : forall st : @kstate R, state_ok st -> asis_safe st ->
+  find_best_asis Rops st = find_best Rops true true st.
+Proof.
+  intros st Hok Hsafe. unfold find_best_asis, find_best.
+  apply fold_left_ext_in. intros j Hj best.
+  destruct (Hsafe j Hj) as [Gd Gr]. cbv zeta in Gd, Gr.
+  assert (Hk : (nth j (ks_cl st) 0%nat < ks_nc st)%nat).
+  { destruct Hok as (_ & Hlen & Hcl & Hex & _). rewrite Forall_forall in Hcl, Hex. apply Hcl, nth_In. rewrite Hlen. now apply Hex. }
+  apply fold_left_ext_in. intros f _ best'.
+  apply scan_gen_ext. intros acc pre x rest' a b c d. unfold scan_visit.
+  destruct (_ || _)%bool; [reflexivity|]. destruct (neqb Rops _ _); [reflexivity|].
+  apply cas_asis_eq_repaired; [exact Gd|]. destruct Gr as [Gr|Gr]; [now left | right; split; assumption].
+Qed.
+
+Lemma find_best_asis_is_argmax : forall st : @kstate R, state_ok st -> asis_safe st ->
+  argmax_result st (find_best_asis Rops st).
+Proof. intros st Hok Hs. rewrite (find_best_asis_eq_repaired st Hok Hs). now apply find_best_repaired_is_argmax. Qed.
+
+(* simple sufficient conditions: at most one more cluster may be created (no double star) and at most 3 clusters exist *)
+Lemma asis_safe_simple (st : @kstate R) : (ks_kmax st <= S (ks_nc st))%nat -> (ks_nc st <= 3)%nat -> asis_safe st.
+Proof.
+  intros H1 H2 j _. cbv zeta. split; [|now right].
+  unfold g_double_star. replace (ks_nc st <? ks_kmax st - 1)%nat with false by (symmetry; apply Nat.ltb_ge; lia). reflexivity.
+Qed.
+(* every explorable leaf is a whole cluster: neither the double star nor the reallocation is ever evaluated *)
+Lemma asis_safe_whole (st : @kstate R) :
+  (forall j, In j (ks_explore st) -> length (nth j (ks_leaves st) []) = csize st (nth j (ks_cl st) 0%nat)) -> asis_safe st.
+Proof.
+  intros H j Hj. cbv zeta. unfold g_double_star, g_realloc. rewrite (H j Hj), Nat.eqb_refl. cbn [negb].
+  rewrite !andb_false_r. split; [reflexivity | now left].
+Qed.
+
+(* ------------------------------------------------------------------ why the greedy loop stops *)
+Lemma fit_loop_stops_only (fix7 fix8 : bool) (good : @kstate R -> Prop) :
+  (forall st, good st -> argmax_result st (find_best Rops fix7 fix8 st)) ->
+  forall fuel max_leaves next (st st' : @kstate R) s,
+  fit_loop Rops fix7 fix8 fuel max_leaves next st = (st', s) ->
+  match s with
+  | StopNoGain => good st' -> forall c, In c (candidates Rops st') -> gain Rops st' c <= 0
+  | StopMaxLeaves => (max_leaves <= length (ks_leaves st'))%nat
+  | StopNoLeaf => ks_explore st' = []
+  | OutOfFuel => True
+  end.
+Proof.
+  intros Harg. induction fuel as [|fu IH]; intros max_leaves next st st' s H; cbn [fit_loop] in H.
+  - injection H as <- <-. exact I.
+  - destruct (length (ks_leaves st) <? max_leaves)%nat eqn:Gl; cbn [negb] in H.
+    + destruct (ks_explore st) eqn:Ge; [injection H as <- <-; exact Ge|].
+      rops. unfold Rltb in H. destruct (Rlt_dec 0 (sp_gain (find_best Rops fix7 fix8 st))) as [Hpos|Hnpos].
+      * destruct (sp_cand (find_best Rops fix7 fix8 st)) eqn:Ec; [exact (IH _ _ _ _ _ H)|].
+        injection H as <- <-. intros Hg. destruct (Harg st Hg) as (_ & _ & A3). rewrite Ec in A3. lra.
+      * injection H as <- <-. intros Hg c Hc. destruct (Harg st Hg) as (_ & A2 & _). specialize (A2 c Hc). lra.
+    + injection H as <- <-. apply Nat.ltb_ge in Gl. exact Gl.
+Qed.
+
+(* a state on which the as-is search is provably the arg-max: same data as ex_state, K_max = n_clusters + 1 *)
+Definition ex_state_safe : @kstate R :=
+  {| ks_kernel := kid; ks_X := fun i _ => INR i; ks_leaves := [[0; 1]; [2]]%nat; ks_cl := [0; 0]%nat; ks_nc := 1;
+     ks_kmax := 2; ks_minleaf := 1; ks_explore := [0%nat]; ks_feats := [0%nat] |}.
+Lemma ex_state_safe_ok : state_ok ex_state_safe /\ asis_safe ex_state_safe.
+Proof.
+  split; [|apply asis_safe_simple; simpl; lia].
+  repeat split; simpl; try lia.
+  - exact kid_sym.
+  - repeat constructor.
+  - repeat constructor.
+  - intros k' Hk'. assert (k' = 0%nat) by lia. subst. discriminate.
+Qed.
